@@ -22,8 +22,20 @@ def make_spec(stream, rng, edge_index=None):
     elif stream == "adversary":
         spec = simgen.gen_spec(rng, pairing="queue")
         spec["scheduling"] = {"kind": "adversary",
-                              "mode": rng.choice(["random", "busy", "dup", "foreign", "resched", "unready"]),
+                              "mode": rng.choice(["random", "busy", "dup", "foreign", "resched", "unready", "static", "static"]),
                               "seed": rng.randint(0, 10 ** 6)}
+        if rng.random() < 0.5:
+            # ingests that overlap and end at different times, while earlier workflows are being scheduled
+            t = rng.choice([0, 1])
+            for o in spec["observations"]:
+                o["start"] = t
+                t += rng.randint(1, max(1, o["duration"] - 1))
+                o["demand"] = 1
+            spec["total_arrays"] = max(spec["total_arrays"], len(spec["observations"]))
+            spec["max_ingest"] = max(spec["max_ingest"], min(len(spec["machines"]), sum(o["ingest_demand"] for o in spec["observations"])))
+            tot = sum(o["rate"] * o["duration"] for o in spec["observations"])
+            spec["hot"]["capacity"] = int(tot / 0.6) + 5
+            spec["cold"]["capacity"] = spec["hot"]["capacity"] + 5
     elif stream in ("chaotic", "chaotic-batch", "chaotic-dynamic"):
         pairing = {"chaotic": None, "chaotic-batch": "batch", "chaotic-dynamic": "dynamic"}[stream]
         spec = simgen.gen_spec(rng, pairing=pairing)
